@@ -10,7 +10,7 @@ import os
 import numpy as np
 
 from .. import ops, state
-from ..common import hx, key_family, sk, unhx
+from ..common import pick, hx, key_family, sk, unhx
 
 ID = "C20"
 LEVEL = "fault_enumeration"
@@ -32,10 +32,10 @@ def shapes(ctx, rng):
     out.append({"kind": "linear", "width": int(rng.integers(1, 40)), "depth": int(rng.integers(1, 5))})
     out.append({"kind": "linear", "width": 97 if q else int(rng.integers(200, 900)), "depth": 3})
     out.append({"kind": "log16", "width": int(rng.integers(1, 60)), "depth": int(rng.integers(1, 5)),
-                "max_count": int(rng.choice([2**32 - 1, 10**6, 70000])), "num_reserved": int(rng.choice([1023, 0, 100]))})
+                "max_count": pick(rng, [2**32 - 1, 10**6, 70000]), "num_reserved": pick(rng, [1023, 0, 100])})
     out.append({"kind": "log16", "width": 150 if q else int(rng.integers(300, 2000)), "depth": 2})
     out.append({"kind": "log8", "width": int(rng.integers(1, 80)), "depth": int(rng.integers(1, 5)),
-                "max_count": int(rng.choice([2**32 - 1, 10**6, 1000])), "num_reserved": int(rng.choice([15, 0, 100]))})
+                "max_count": pick(rng, [2**32 - 1, 10**6, 1000]), "num_reserved": pick(rng, [15, 0, 100])})
     out.append({"kind": "log8", "width": 400 if q else int(rng.integers(600, 4000)), "depth": 3})
     out.append({"kind": "hh", "width": int(rng.integers(1, 12)), "depth": int(rng.integers(1, 4)),
                 "max_key_len": int(rng.integers(1, 17))})
